@@ -185,7 +185,7 @@ pub fn run(reg: &Registry, c: &RCase, ctx: &Ctx) -> PResult {
         }
         ctx.nontrivial_hash(h);
     }
-    if ctx.want_sample() && m.nontrivial && (ctx.seed ^ fnv64(format!("{:?}", c.muts).as_bytes())) % 997 == 0 {
+    if ctx.want_sample() && m.nontrivial && (ctx.sample_count() < 2 || (ctx.seed ^ fnv64(format!("{:?}", c.muts).as_bytes())) % 997 == 0) {
         ctx.sample(json!({"entry": c.entry, "seed": c.seed, "mutations": format!("{:?}", c.muts), "input": hex_trunc(&m.args[m.target], 48), "outcome": oname}));
     }
     let case_json = || {
